@@ -298,6 +298,8 @@ func (b *Batch) flushStaged() error {
 	// 追加操作全部完成后, 更新索引
 	for i, record := range b.staged {
 		var pos *datafile.DataPos
+		// 维护总数据量, 与 appendLogRecord 保持一致
+		b.db.totalSize += int64(dataPos[i].Size)
 		if record.Type == datafile.LogRecordDeleted {
 			pos = b.db.index.Delete(record.Key)
 			b.db.reclaimSize += int64(dataPos[i].Size)
